@@ -412,7 +412,7 @@ func init() {
 		ID:          "C19",
 		Level:       "model_checking",
 		Technique:   "exhaustive enumeration of (middleware count, failing position, auth, terminate hook) configurations x command histories x delivery mode on a real server, judged by a lifecycle reference machine with context probes inside every callback",
-		Rule:        "m in 0..3 middlewares, failing position none|1..m (returning its context or a nil context with the error), auth none|cleartext, terminate hook absent|ok|error (60 configurations) x all histories of length <= d over {Query ok, Query err, Parse+Bind+Execute+Sync, a failing Bind without Sync, Terminate, EOF} x {message by message, one segment}; several users: all step sequences of length <= 5 over 3 users connected at the same time (with / without global parameters), every callback probing the context of its own connection; transport faults: 3 configurations x histories of <= 2 letters x the k-th write (k <= 8) after the start-up failing for good: every command context is cancelled once the connection has ended",
+		Rule:        "m in 0..3 middlewares, failing position none|1..m (returning its context or a nil context with the error), auth none|cleartext, terminate hook absent|ok|error (60 configurations) x all histories of length <= d over {Query ok, Query err, Parse+Bind+Execute+Sync, a failing Bind without Sync, Terminate, EOF} x {message by message, one segment}; shared option: one SessionMiddleware option value handed to 2-3 servers (registered before / after a per-server middleware), connections in every order of length <= 3; several users: all step sequences of length <= 5 over 3 users connected at the same time (with / without global parameters), every callback probing the context of its own connection; transport faults: 3 configurations x histories of <= 2 letters x the k-th write (k <= 8) after the start-up failing for good: every command context is cancelled once the connection has ended",
 		Assumptions: []string{"context cancellation is observed at the next quiescence on the retained context"},
 		Enumerate:   c19Enumerate,
 		Bounds: func(tier string) map[string]any {
@@ -508,6 +508,79 @@ func c19RunUsers(global bool, order []int) explore.Result {
 	return res
 }
 
+// c19RunSharedOption: one SessionMiddleware OPTION VALUE handed to several servers (an application building its
+// servers from a common option list plus a per-server one). Every server runs ITS middlewares, in ITS registration
+// order, each receiving its predecessor's context.
+func c19RunSharedOption(nservers int, sharedFirst bool, connectOrder []int) explore.Result {
+	var res explore.Result
+	res.Outcome = "several-connections"
+	res.Key = fmt.Sprint("shared-option", nservers, sharedFirst, connectOrder)
+	type tenantKey struct{}
+	type auditKey struct{}
+	var log []string
+	shared := wire.SessionMiddleware(func(ctx context.Context) (context.Context, error) {
+		t, _ := ctx.Value(tenantKey{}).(string)
+		log = append(log, "audit sees tenant "+t)
+		return context.WithValue(ctx, auditKey{}, "audited:"+t), nil
+	})
+	var servers []*harness.Server
+	seen := map[int][]string{}
+	for i := 0; i < nservers; i++ {
+		i := i
+		own := wire.SessionMiddleware(func(ctx context.Context) (context.Context, error) {
+			log = append(log, fmt.Sprintf("tenant middleware %d", i))
+			return context.WithValue(ctx, tenantKey{}, fmt.Sprintf("T%d", i)), nil
+		})
+		parse := func(ctx context.Context, q string) (wire.PreparedStatements, error) {
+			return wire.Prepared(wire.NewStatement(func(ctx context.Context, w wire.DataWriter, p []wire.Parameter) error {
+				t, _ := ctx.Value(tenantKey{}).(string)
+				a, _ := ctx.Value(auditKey{}).(string)
+				seen[i] = append(seen[i], fmt.Sprintf("tenant=%s audit=%s", t, a))
+				return w.Complete("OK")
+			})), nil
+		}
+		opts := []wire.OptionFn{own, shared}
+		if sharedFirst {
+			opts = []wire.OptionFn{shared, own}
+		}
+		srv, err := harness.NewServer(parse, opts...)
+		if err != nil {
+			res.Engine = err.Error()
+			return res
+		}
+		defer srv.Stop()
+		servers = append(servers, srv)
+	}
+	for _, si := range connectOrder {
+		log = nil
+		before := len(seen[si])
+		c := servers[si].Connect()
+		out, _ := c.Step(pgproto.Cat(pgproto.Startup("user", "u"), pgproto.Query("q")))
+		what := fmt.Sprintf("%d servers built with one shared SessionMiddleware option value (shared one registered first: %v), connection to server %d", nservers, sharedFirst, si)
+		if k := harness.Kinds(out); !strings.HasSuffix(k, "ZCZ") {
+			res.Fail("reply", fmt.Sprintf("%s: answered %q", what, k))
+			break
+		}
+		wantLog := []string{fmt.Sprintf("tenant middleware %d", si), fmt.Sprintf("audit sees tenant T%d", si)}
+		wantSeen := fmt.Sprintf("tenant=T%d audit=audited:T%d", si, si)
+		if sharedFirst {
+			wantLog = []string{"audit sees tenant ", fmt.Sprintf("tenant middleware %d", si)}
+			wantSeen = fmt.Sprintf("tenant=T%d audit=audited:", si)
+		}
+		if !sameStrings(log, wantLog) {
+			res.Fail("middleware-order", fmt.Sprintf("%s: middlewares ran as %v, expected %v", what, log, wantLog))
+			break
+		}
+		if got := seen[si][before:]; len(got) != 1 || got[0] != wantSeen {
+			res.Fail("context-propagation", fmt.Sprintf("%s: the statement saw %v, expected [%s]", what, got, wantSeen))
+			break
+		}
+		c.End()
+	}
+	res.Trans = []string{fmt.Sprintf("%d servers|shared option|served", nservers)}
+	return res
+}
+
 // c19RunServer: several connections one after the other on ONE server: middlewares and the terminate
 // hook are per connection (once for each), never once per server.
 func c19RunServer(cfg c19Config, nconn int) explore.Result {
@@ -577,6 +650,23 @@ func c19Enumerate(tier string, emit explore.Emit) {
 					Desc: func() any { return map[string]any{"config": cfg.String(), "sequential_connections_on_one_server": n} },
 					Run:  func() explore.Result { return c19RunServer(cfg, n) }})
 			}
+		}
+	}
+	// one option value shared by several servers
+	for _, n := range []int{2, 3} {
+		for _, first := range []bool{false, true} {
+			forShapes(n, 3, func(sh []int) {
+				if len(sh) == 0 {
+					return
+				}
+				order := append([]int(nil), sh...)
+				n, first := n, first
+				emit(explore.Case{Family: "shared-option", Size: 40 + len(order),
+					Desc: func() any {
+						return map[string]any{"servers": n, "shared_option_registered_first": first, "connections_to_server": order}
+					},
+					Run: func() explore.Result { return c19RunSharedOption(n, first, order) }})
+			})
 		}
 	}
 	// connections of different users alive at the same time: every step is "connect" (first mention of a user) or
